@@ -65,6 +65,11 @@ CLAIMS = {
    text="Theorems (Coq, all interleavings): items obtained by receive() before setcallback, those replayed by setcallback and those handed to the callback afterwards are together exactly a prefix of what was sent, in order (same conservation theorem as C02 with callback deliveries in the obtained list); endmarker callbacks fired + registrations still pending = registrations made (each endmarker exactly once, at close); a channel with a callback has no queue (receive and a second setcallback are refused). The whole replay-and-register step is one transition because setcallback's body sits under the receive lock -- a regenerated fact; the seeded change releasing the lock early breaks it and the search finds the reordering. Tie as C02, plus 'callback_mid' programs where items arrive while setcallback replays.",
    design_ref="7.10", note=BASE_NOTE + "Assumed: each shared access between two synchronisation calls is atomic (GIL) -- the model's step granularity (one handled frame / one queue get / one put-back / one setcallback under the receive lock, justified by the regenerated lock-region facts); frame integrity is C08, item encoding C01. Local Channel.close() and the sending side are exercised by the harness, not part of the Coq model. Connection loss is C04.",
    technique="Coq invariant proof (conservation incl. callbacks, endmarker counting) + lock-region fact + step differential + scheduler-driven programs"),
+ "C04": dict(
+   text="Theorems (Coq, unbounded): a stream of well-formed frames cut at ANY byte offset and read with ANY chunking decodes to a prefix of the frames (complete frames only, unaltered) and then ends; in every state reachable by any interleaving in which the receiver's epilogue has run, no channel or callback remains registered, every requested endmarker has fired exactly once, every Channel object still held has an ENDMARKER in its queue or in the hand of a receiver putting it back (so every blocked or later receive of any thread ends with EOFError, none blocks forever), obtained plus still-receivable items are a prefix of the sent ones, nothing is delivered and no channel can be created afterwards, and this is final. Tie: regenerated facts (exact reads raise EOFError with text on both transports, from_io, the epilogue's order, _finished_receiving, new() refusing, _send mapping to OSError, hasreceiver, stored error raised by receive/waitclose), step differential incl. the epilogue operation, and real gateway pairs over the real Popen2IO and SocketIO with the peer->survivor stream cut at every byte offset crossed with schedules and blocked receivers / waitclose callers / callbacks.",
+   design_ref="7.5",
+   note=BASE_NOTE + "Assumed: A-eof (the kernel ends the stream when the peer dies), A-epipe (writing to a closed pipe/socket raises OSError/ValueError), GIL step granularity. waitclose's Event and the virtual clock are harness-level; real SIGKILLs of worker processes are in the thorough tier only as far as the sandbox allows. Defect found and fixed: SocketIO.read's bare EOFError (known_findings.json).",
+   technique="Coq proofs (cut-anywhere codec theorem; finish-step invariant over the channel LTS) + facts + step differential + exhaustive cut offsets x schedules on the real gateway pair (pipe and socket IO)"),
  "C18": dict(
    text="Theorems (Coq, unbounded): for any number of allocating threads on each side and every interleaving of their read-counter/write-counter steps and of adoptions of peer ids, all ids handed out on the two sides are pairwise distinct (initiator ids odd, worker ids even); witnesses: without the lock two threads get the same id; bumping the counter on adoption collides. Handling the peer's close for an id leaves neither channel nor callback registered, and only new(id)/setcallback register. Tie: facts (new() entirely under _writelock, counter assigned only in __init__ and the fresh-id branch, step 2, start counts 1/2 read from Gateway.__init__ and serve(), channels serialised by id and re-created by new(id), WeakValueDictionary), differential of the id model against two real ChannelFactory objects, programs passing channels over channels in both directions with both tables back to baseline afterwards.",
    design_ref="7.11", note=BASE_NOTE + "Assumed: each shared access between two synchronisation calls is atomic (GIL) -- the model's step granularity (one handled frame / one queue get / one put-back / one setcallback under the receive lock, justified by the regenerated lock-region facts); frame integrity is C08, item encoding C01. Local Channel.close() and the sending side are exercised by the harness, not part of the Coq model. Connection loss is C04.",
